@@ -11,6 +11,12 @@ KW = {
 }
 
 
+MACRO_DEFS = ("DEFINE PRIO 5 <ID> ++ AS $0 := $0 + 1 END DEFINE\n"
+              "DEFINE ZERO <ID> AS $0 := 0 END DEFINE\n"
+              "DEFINE SWAP <ID> <ID> AS #0 := $0; $0 := $1; $1 := #0 END DEFINE\n"
+              "DEFINE TWICE <P> ENDTWICE AS $0; $0 END DEFINE\n")
+
+
 class Opts:
     def __init__(self, **kw):
         self.max_defs = 3
@@ -26,6 +32,7 @@ class Opts:
         self.big_consts = 0.0    # share of constants near 2^31
         self.allow_diverge = 0.1
         self.user_macros = 0.0
+        self.split_text = 0.0
         self.__dict__.update(kw)
 
 
@@ -93,6 +100,17 @@ class ProgGen:
             return ('while', v, body)
         if scope['goto'] and x < 0.62:
             return self.goto_stmt(scope)
+        if self.o.user_macros and self.r.random() < self.o.user_macros:
+            self.used_macros = True
+            y = self.r.random()
+            v, w = self.var(scope), self.var(scope)
+            if y < 0.3:
+                return ('macro', ['ZERO %s' % v])
+            if y < 0.6:
+                return ('macro', ['%s ++' % v])
+            if y < 0.8 and v != w:
+                return ('macro', ['SWAP %s %s' % (v, w)])
+            return ('macro', ['TWICE %s := %s + 1 ENDTWICE' % (v, v)])
         if x > 1 - self.o.p_stop * 0.3:
             return ('stop',)
         return ('assign', self.var(scope), self.value(scope))
@@ -149,6 +167,8 @@ class ProgGen:
             lines.append(pad + '%s := %s%s' % (s[1], ' '.join(s[2]), sep))
         elif s[0] == 'stop':
             lines.append(pad + self.kw('STOP') + sep)
+        elif s[0] == 'macro':
+            lines.append(pad + s[1][0] + sep)
         elif s[0] == 'goto':
             lines.append(pad + '%s %s%s' % (self.kw('GOTO'), s[1], sep))
         elif s[0] == 'ifgoto':
@@ -207,7 +227,7 @@ class ProgGen:
             self.render_body(body, lines, 1)
             lines.append(self.kw('END'))
             chunks.append(lines)
-            funcs.append((name, arity))
+            funcs = [(n_, a_) for (n_, a_) in funcs if n_ != name] + [(name, arity)]
             for k in ('uses_goto', 'uses_call', 'uses_while'):
                 if scope.get(k):
                     meta[k[5:]] = True
@@ -237,7 +257,29 @@ class ProgGen:
         else:
             for c in chunks:
                 main_lines += c
-        files['main.theo'] = '\n'.join(main_lines) + ('\n' if r.random() < 0.8 else '')
+        if getattr(self, 'used_macros', False):
+            defs = MACRO_DEFS
+            if r.random() < 0.5:
+                files['macros.theo'] = defs
+                main_lines = ['include "macros.theo"'] + main_lines
+            else:
+                main_lines = defs.rstrip('\n').split('\n') + main_lines
+            meta['macros'] = True
+            self.used_macros = False
+        text = '\n'.join(main_lines) + ('\n' if r.random() < 0.8 else '')
+        if getattr(self.o, 'split_text', 0) and r.random() < self.o.split_text:
+            # cut the text at arbitrary token boundaries into included files (constructs spread over files)
+            lines_ = text.split('\n')
+            k0 = max([i + 1 for i, l in enumerate(lines_) if l.lstrip().lower().startswith(('define', 'include'))] + [0])
+            head, body = '\n'.join(lines_[:k0]), '\n'.join(lines_[k0:])
+            words = body.split(' ')
+            if len(words) > 6:
+                a = r.randrange(1, len(words) - 3)
+                b = r.randrange(a + 1, len(words) - 1)
+                files['part.theo'] = ' '.join(words[a:b])
+                text = (head + '\n' if head else '') + ' '.join(words[:a]) + ' include "part.theo" ' + ' '.join(words[b:])
+                meta['split'] = True
+        files['main.theo'] = text
         meta['files'] = len(files)
         return files, 'main.theo', meta
 
